@@ -457,8 +457,14 @@ int TempResultToInt(TempResult* pResult) {
 Boolean MultiCharToInt(TempResult* pResult, unsigned MaxLen) {
     if ((pResult->Typ == TempString) && (pResult->Contents.str.len <= MaxLen)
         && (pResult->Flags & eSymbolFlag_StringSingleQuoted)) {
-        TempResultToInt(pResult);
-        return True;
+        /* more characters than an integer holds: leave it a string instead
+           of handing an invalidated result to the caller as an integer */
+        LargeInt Result = NonZString2Int(&pResult->Contents.str);
+
+        if (Result >= 0) {
+            as_tempres_set_int(pResult, Result);
+            return True;
+        }
     }
     return False;
 }
